@@ -12,6 +12,16 @@ META: dict[str, dict[str, str]] = {
         "note": "Invariant table for two remove() sites (reason recorded per entry)." + COMMON_NOTE,
         "technique": "static analysis: dominating-guard check on remove() call sites, def-use wiring of PoolSum pools vs Wigner-D arguments, loop-shape roles",
     },
+    "C09": {
+        "level": "Decides what unitarity and symmetry need from the code: K parametrisations symmetric under i<->j and free of the imaginary unit, T = K(1-iK)^-1 and the relativistic T^/T formulas in a non-commutative normal form (push-through equivalents accepted, wrong sign/side/missing rho rejected), rho symbol identity between producer and both consumers, duplicated symbol constructions agreeing in kind and assumptions, K[i,j] substituted by the own parametrisation. Numerical unitarity is not decided.",
+        "note": "Matrix identities (push-through) and S = 1+2iT are trusted mathematics." + COMMON_NOTE,
+        "technique": "static analysis: term extraction with closure inlining, swap-invariance of the normal form, non-commutative matrix normal form, symbol-construction pairing",
+    },
+    "C10": {
+        "level": "Decides (b) completely at the code level: every (caller, callee, parameter) triple over {phsp_factor, angular_momentum, meson_radius} in ampform.dynamics (measured on each run) forwards the caller's own value, for any value a caller may pass; and (a) structurally: F = (1-iK)^-1 P and the relativistic analogue in non-commutative normal form, K/P substituted by the library's own parametrisations with matching indices and shared pole symbols. Residuals and the 1-channel/1-pole reduction are not decided.",
+        "note": "Python call semantics (an omitted keyword takes the callee's default)." + COMMON_NOTE,
+        "technique": "static analysis: call-graph triple enumeration with def-use check of forwarded arguments; non-commutative matrix normal form",
+    },
     "C14": {
         "level": "Decides the structural necessary conditions of the substitution/equality/folding laws for every @unevaluated class (enumerated from the AST): reconstruction hooks read arguments shallowly and completely, self.args unpackings match the field lists, the hash hook covers non-SymPy fields, folded classes print through their unfolding. Universal over argument shapes because it speaks about the hook code, not about sampled instances. Does not decide the laws for arbitrary values.",
         "note": "External-API table: dataclasses.astuple/asdict/copy.deepcopy are deep; Basic.subs/xreplace dispatch to _eval_subs/_xreplace." + COMMON_NOTE,
